@@ -185,7 +185,7 @@ func verif_CloseClient(c *Controller, name string, q string) {
 // whatever was inserted into the session table is removed again.
 //
 //verif:contract (*~/pkg/nathole.Controller).HandleVisitor
-//verif:props C08 C20
+//verif:props C08 C20 C16
 func verif_HandleVisitor(c *Controller, m *msg.NatHoleVisitor, transporter transport.MessageTransporter, visitorUser string) {
 	cfg0, ok0 := c.clientCfgs[m.ProxyName]
 	precheck := m.PreCheck
@@ -229,13 +229,6 @@ func verif_HandleVisitor(c *Controller, m *msg.NatHoleVisitor, transporter trans
 // goroutine for ever when the owner never answers.
 //
 //verif:noblock (*~/pkg/nathole.Controller).HandleVisitor props=C20,C16 recv
-
-// The owner's side: telling the waiting visitor handler that the owner's
-// answer arrived never blocks - a duplicate (or late) NatHoleClient for a live
-// session finds the one-slot notification channel full and must simply return
-// (every handler runs in a goroutine of its own; a blocked one is never freed).
-//
-//verif:noblock (*~/pkg/nathole.Controller).HandleClient props=C20,C16
 
 // ------------------------------------------------------------ score records
 
@@ -328,6 +321,17 @@ func verif_analysis(c *Controller, session *Session) {
 	cTx, vTx := cm.TransactionID, vm.TransactionID
 	verif.ResetEvents()
 	vResp, cResp, err := c.analysis(session)
+	// "malformed address lists yield an error response to both parties": the
+	// failure to classify EITHER party's addresses is an error of the analysis,
+	// and then nothing is computed from a classification that does not exist
+	const evClassify = "nathole.ClassifyNATFeature"
+	verif.Ensures(verif.Called(evClassify), "owner_addresses_are_classified")
+	if verif.CallCount(evClassify) >= 1 && verif.NthRet[error](evClassify, 0, 1) != nil {
+		verif.Ensures(err != nil && vResp == nil && cResp == nil && verif.CallCount(evClassify) == 1, "unclassifiable_owner_addresses_are_an_error")
+	}
+	if verif.CallCount(evClassify) >= 2 && verif.NthRet[error](evClassify, 1, 1) != nil {
+		verif.Ensures(err != nil && vResp == nil && cResp == nil, "unclassifiable_visitor_addresses_are_an_error")
+	}
 	if err == nil {
 		verif.Ensures(vResp != nil && cResp != nil, "both_get_a_response")
 		verif.Ensures(vResp.Sid == sid && cResp.Sid == sid, "same_session_id")
